@@ -469,7 +469,7 @@ AtomicNextWake(c) ==
 
 \* cancellation of a waiting next(): the goroutine returns without a peer
 AtomicNextCancel(c) ==
-  /\ pc[c] = "nx_wait"
+  /\ pc[c] = "nx_wait" /\ ~ChanClosed(c)   \* (with the channel closed the select may take either branch)
   /\ Goto(c, "idle") /\ Step(c, "next_cancel", None, None)
   /\ UNCHANGED <<pool, queue, mu, now, op, opsLeft, waitGen, ctxDone, exp, k, coolUntil, viol>>
 
@@ -601,11 +601,11 @@ AllReturn == \A c \in Callers : (pc[c] # "idle" /\ op[c].name # "next") ~> pc[c]
 Proj == [pool |-> pool, items |-> queue.items, armed |-> queue.armed, now |-> now,
          waiting |-> {c \in Callers : pc[c] = "nx_wait"},
          timers |-> {t \in Timers : pc[t] = "re_lock"},
-         opsLeft |-> opsLeft, cool |-> coolUntil]
+         opsLeft |-> opsLeft, cool |-> coolUntil, wg |-> waitGen]
 ProjNext == [pool |-> pool', items |-> queue'.items, armed |-> queue'.armed, now |-> now',
          waiting |-> {c \in Callers : pc'[c] = "nx_wait"},
          timers |-> {t \in Timers : pc'[t] = "re_lock"},
-         opsLeft |-> opsLeft', cool |-> coolUntil']
+         opsLeft |-> opsLeft', cool |-> coolUntil', wg |-> waitGen']
 EdgeOut == last'.act = "init" \/ (vars' = vars) \/
            PrintT(<<"EDGE", ToJson([s |-> Proj, a |-> last', t |-> ProjNext])>>)
 =============================================================================
